@@ -477,3 +477,26 @@ def container_levels_return_their_accumulator(ctx):
                % norm(v)[:40], node=x)
     ctx.ob(n_acc >= 2, u, 'both container levels return the accumulator (%d returns)' % n_acc)
     ctx.floor(5)
+
+
+@rule('C16.15')
+def items_are_not_tested_for_truth(ctx):
+    """every item routed to a leaf aggregator is aggregated: an aggregator's ``agg`` / ``_agg``
+    never looks at the truth value of the item (an empty mapping merged into a bucket still opens
+    the bucket, a 0 still counts): no test on the bare item"""
+    p = ctx.program
+    n = 0
+    for u in p.package_units():
+        if u.module.short not in ('grouping', 'reduction') or u.cls is None or u.name not in ('agg', '_agg'):
+            continue
+        n += 1
+        item = u.params[1]
+        cfg = ctx.cfg(u)
+        bad = [t for t in cfg.nodes if t.kind == 'test' and (polarity(t.ast, item) or any(
+            isinstance(x, ast.Call) and is_name(x.func) and x.func.id in ('bool', 'len') and x.args and is_name(x.args[0], item)
+            for x in ast.walk(t.ast)))]
+        ctx.ob(not bad, u, '%s.%s aggregates every item it is handed (no truth test on the item)' % (u.cls.name, u.name),
+               '' if not bad else 'items for which `%s` decides are skipped or treated specially: an empty / zero item is still an item'
+               % norm(bad[0].ast), node=bad[0].ast if bad else None)
+    ctx.require(n >= 7, 'aggregator methods not found (%d)' % n)
+    ctx.floor(7)
